@@ -26,12 +26,14 @@ ASSUMPTIONS = [
     "a value containing CR or LF may either be encoded with escapes inside a quoted string or refused with an error and nothing written; both satisfy the statement",
     "keys that cannot be a kvline key (empty, containing white space or '=') are judged only on the one-line rule and on not being sent mangled silently is NOT demanded",
     "values are compared as str(value)",
+    "C0 control characters and DEL in values (outside the statement's printable-ASCII quantifier, inside its 'whatever characters' one-line clause) are generated too and judged by the same round trip through the reference grammar (octal / hex escapes decoded, other backslash pairs stand for the second character)",
+    "commands longer than Tor's 1 MiB command limit are judged on the one-line rule and the round trip like any other",
 ]
 TRUSTED_BASE = ["vf.refs.kvline", "vf.ctl.Session"]
 ANCHORS = ["txtorcon.torcontrolprotocol:TorControlProtocol.set_conf",
            "txtorcon.torcontrolprotocol:TorControlProtocol.queue_command",
            "txtorcon.torcontrolprotocol:TorControlProtocol._maybe_issue_command"]
-FLOORS = {"quick": {"evaluations": 3000, "lines_decoded": 2500, "queued_calls": 800,
+FLOORS = {"quick": {"evaluations": 3000, "lines_decoded": 2500, "queued_calls": 800, "control_char_cases": 500, "long_commands": 3,
                     "reach:txtorcon.torcontrolprotocol:TorControlProtocol.set_conf": 3000},
           "thorough": {"evaluations": 30000, "lines_decoded": 25000}}
 
@@ -43,6 +45,8 @@ def value_class(values):
     s = "".join(v for v in values if isinstance(v, str))
     if "\r" in s or "\n" in s:
         return "value-has-cr-or-lf"
+    if any((ord(c) < 0x20 and c != "\t") or ord(c) == 0x7f for c in s):
+        return "value-has-control-char"
     if '"' in s:
         return "value-has-dquote"
     if "\\" in s:
@@ -239,6 +243,47 @@ def run_shard(spec, rec):
         go({"pairs": [("", "v")]})
         rec.count("unencodable_key_cases", n + 1)
         rec.enumerated("critical character x position in key x pair position")
+    elif mode == "control":
+        # every C0 control character and DEL: alone, inside a word, next to a space / quote / backslash
+        n = 0
+        for code in list(range(0, 0x20)) + [0x7f]:
+            c = chr(code)
+            for v in (c, "a" + c + "b", c + " x", "x " + c, c + '"', "\\" + c, c + c, "v" + c):
+                for pairs in ([("Log", v)], [("SocksPort", "9050"), ("Log", v), ("ORPort", 0)]):
+                    go({"pairs": pairs})
+                    n += 1
+        rec.count("control_char_cases", n)
+        rec.enumerated("every C0 control character and DEL x 8 contexts x 2 pair positions")
+    elif mode == "long":
+        # a command far beyond Tor's MAX_COMMAND_LINE_LENGTH is still ONE line (Tor will refuse it;
+        # sending a slice of the pairs in each of several commands would apply half of a change)
+        for sizes in spec["sizes"]:
+            pairs = [(KEYS[i % len(KEYS)], "xyz"[i % 3] * n) for i, n in enumerate(sizes)]
+            case = {"pairs": "%d pairs with values of %s bytes" % (len(sizes), sizes), "long": sizes}
+            s = fresh_session()
+            before = len(s.transport.writes)
+            args = []
+            for k, v in pairs:
+                args.extend([k, v])
+            try:
+                s.proto.set_conf(*args)
+            except Exception as e:
+                rec.count("refused")
+            written = b"".join(x for (_, x) in s.transport.writes[before:])
+            s.run()
+            written_all = b"".join(x for (_, x) in s.transport.writes[before:])
+            s.finish()
+            rec.case(case)
+            rec.count("long_commands")
+            nlines = written_all.count(b"\r\n")
+            if nlines > 1 or (written_all and not written_all.endswith(b"\r\n")):
+                rec.violation("more-than-one-line", "total-length-%s" % ("above-1MiB" if sum(sizes) > (1 << 20) else "below-1MiB"),
+                              {"lines": nlines, "first": written_all[:80], "sizes": sizes}, case)
+            elif nlines == 1:
+                rec.count("lines_decoded")
+                got = kvline.parse(written_all[:-2].decode("ascii")[len("SETCONF "):])
+                if [(k, v) for (k, v) in got] != [(k, v) for (k, v) in pairs]:
+                    rec.violation("roundtrip-mismatch", "total-length-above-1MiB", {"sizes": sizes, "decoded_pairs": len(got)}, case)
     elif mode == "queued":
         for i in range(spec["n"]):
             rnd = gen.rnd_for(spec["seed"], "C12q", spec["shard"], i)
@@ -272,6 +317,8 @@ def run_shard(spec, rec):
                     v = rnd.random() < 0.5
                 elif r < 0.5:
                     v = "".join(rnd.choice(ALPHA + ["b", "1", "/", ":", ","]) for _ in range(rnd.randint(0, 8)))
+                elif r < 0.56:
+                    v = "".join(rnd.choice(ALPHA + ["\x07", "\x08", "\x0b", "\x0c", "\x1b", "\x7f", "\x01", "z"]) for _ in range(rnd.randint(1, 8)))
                 else:
                     ln = rnd.choice([1, 3, 10, 40, 200])
                     v = "".join(rnd.choice(gen.PRINTABLE) for _ in range(rnd.randint(0, ln)))
@@ -286,6 +333,8 @@ def run_shard(spec, rec):
 
 
 def replay(case, rec):
+    if case.get("long"):
+        return run_shard({"mode": "long", "sizes": [case["long"]]}, rec)
     if case.get("queued"):
         return run_queued(case, rec)
     run_case(case, rec)
@@ -294,12 +343,13 @@ def replay(case, rec):
 def plan(tier, seed):
     if tier == "quick":
         sp = [{"mode": "exhaustive", "maxlen": 3, "part": i, "of": 4} for i in range(4)]
-        sp += [{"mode": "keys"}]
+        sp += [{"mode": "keys"}, {"mode": "control"}, {"mode": "long", "sizes": [[600000, 600000], [1100000], [30] * 40000]}]
         sp += [{"mode": "random", "n": 700} for _ in range(9)]
         sp += [{"mode": "queued", "n": 250} for _ in range(2)]
     else:
         sp = [{"mode": "exhaustive", "maxlen": 4, "part": i, "of": 8} for i in range(8)]
-        sp += [{"mode": "keys"}]
+        sp += [{"mode": "keys"}, {"mode": "control"},
+               {"mode": "long", "sizes": [[600000, 600000], [1100000], [30] * 40000, [400000] * 6, [1 << 20, 5], [5, 1 << 20]]}]
         sp += [{"mode": "random", "n": 25000} for _ in range(12)]
         sp += [{"mode": "queued", "n": 8000} for _ in range(4)]
     return sp
